@@ -91,6 +91,7 @@ type World struct {
 	wake     chan struct{}
 	done     bool
 	yields   []*yieldRec
+	slowCopy map[[2]int]bool // copies whose persistence advances rarely
 	yieldSeq int
 	quiet    bool // quiesce phase: no faults, no workload
 
